@@ -117,9 +117,26 @@ func (f rwFull) ReadFrom(r io.Reader) (int64, error) {
 	return int64(n), err
 }
 
+// the same three capability sets with io.StringWriter on top (net/http's own writers and
+// httptest.ResponseRecorder have it; io.WriteString looks for it)
+type rwBasicS struct{ rwBasic }
+type rwFlushS struct{ rwFlush }
+type rwFullS struct{ rwFull }
+
+func (c *rwCore) writeString(s string) (int, error) {
+	zsim.Yield("rw.WriteString")
+	n, err := c.accept(len(s))
+	c.calls = append(c.calls, fmt.Sprintf("WriteString(%d)->%d,%v", len(s), n, err))
+	return n, err
+}
+func (w rwBasicS) WriteString(s string) (int, error) { return w.writeString(s) }
+func (w rwFlushS) WriteString(s string) (int, error) { return w.writeString(s) }
+func (w rwFullS) WriteString(s string) (int, error)  { return w.writeString(s) }
+
 // ---- requests ----
 
 type c18Req struct {
+	stash    *zerolog.Logger
 	i        int
 	req      *http.Request
 	rwMode   int
@@ -200,6 +217,7 @@ func (r *c18Run) final() http.Handler {
 			q.idMask = id.String()
 		}
 		lg := hlog.FromRequest(req)
+		q.stash = lg
 		lg.Info().Int("req", q.i).Msg("start")
 		nEv := 0
 		for k, op := range q.ops {
@@ -244,6 +262,10 @@ func (r *c18Run) final() http.Handler {
 				if cn, ok := w.(http.CloseNotifier); ok {
 					cn.CloseNotify()
 				}
+			case 8:
+				// body bytes sent with io.WriteString: they commit the implicit 200 like any write
+				zsim.Probe("io_write_string")
+				io.WriteString(w, strings.Repeat("s", 1+q.args[k]%40))
 			case 7:
 				// the client goes away while the handler is still at work; what the handler
 				// sends afterwards is still what was sent
@@ -320,6 +342,22 @@ func (r *c18Run) chain(parent zerolog.Logger, picks []int, accessAt, accessAt2, 
 	return h
 }
 
+// late logs through the logger the innermost handler took from its request, after the
+// request has been served.
+func (r *c18Run) late(q *c18Req) {
+	if q.stash == nil || r.ownLoggerInside {
+		// (with the per-request hook middleware the innermost logger is a Hook() copy that the
+		// inner handlers extended with UpdateContext while the outer ones extend the original:
+		// the two share spare capacity by the rules of Logger.UpdateContext, and what the copy
+		// emits after the outer handlers have run is not specified)
+		q.stash = nil
+		return
+	}
+	zsim.Probe("event_after_request_returned")
+	q.stash.Info().Int("req", q.i).Msg("late event")
+	q.stash = nil
+}
+
 func (r *c18Run) serve(h http.Handler, q *c18Req) {
 	q.fake = &rwCore{hdr: http.Header{}, mode: q.rwMode}
 	q.access = nil
@@ -330,8 +368,14 @@ func (r *c18Run) serve(h http.Handler, q *c18Req) {
 		w = rwBasic{q.fake}
 	case 1:
 		w = rwFlush{q.fake}
-	default:
+	case 2:
 		w = rwFull{q.fake}
+	case 3:
+		w = rwBasicS{rwBasic{q.fake}}
+	case 4:
+		w = rwFlushS{rwFlush{q.fake}}
+	default:
+		w = rwFullS{rwFull{q.fake}}
 	}
 	q.gotPanic = nil
 	defer func() {
@@ -543,7 +587,7 @@ func (c18World) Run(prop string, ch *zsim.Choices, trace bool) *RunResult {
 			req.Header.Set("X-K", string(rune('a'+i)))
 			req.Header.Set("X-Custom-Low", fmt.Sprintf("low-%d", i))
 			req.Proto = []string{"HTTP/1.1", "HTTP/2.0", "HTTP/1.0"}[i%3]
-			q := &c18Req{i: i, req: req, rwMode: ch.Weighted(3, 1, 1, 1, 1), rwKind: ch.Intn(3), panics: ch.Weighted(6, 1, 1)}
+			q := &c18Req{i: i, req: req, rwMode: ch.Weighted(3, 1, 1, 1, 1), rwKind: ch.Intn(6), panics: ch.Weighted(6, 1, 1)}
 			if baseCtx != nil {
 				q.req = req.WithContext(baseCtx)
 			}
@@ -557,7 +601,7 @@ func (c18World) Run(prop string, ch *zsim.Choices, trace bool) *RunResult {
 			}
 			nops := ch.Intn(7)
 			for k := 0; k < nops; k++ {
-				q.ops = append(q.ops, ch.Weighted(6, 8, 4, 2, 6, 2, 2, 1))
+				q.ops = append(q.ops, ch.Weighted(6, 8, 4, 2, 6, 2, 2, 1, 3))
 				q.args = append(q.args, ch.Intn(1000))
 			}
 			r.reqs = append(r.reqs, q)
@@ -578,6 +622,7 @@ func (c18World) Run(prop string, ch *zsim.Choices, trace bool) *RunResult {
 		for _, q := range r.reqs {
 			r.solo = q
 			r.serve(h, q)
+			r.late(q)
 		}
 		r.solo = nil
 		// the reference run itself is checked against the request: every field a handler of
@@ -599,6 +644,13 @@ func (c18World) Run(prop string, ch *zsim.Choices, trace bool) *RunResult {
 			}))
 		}
 		zsim.Join(ts...)
+		// something that kept a request's logger (a goroutine the handler started, a timeout
+		// wrapper) logs through it after every request is over: still that request's values
+		for _, q := range r.reqs {
+			r.cur[zsim.CurID()] = q
+			r.late(q)
+			delete(r.cur, zsim.CurID())
+		}
 		probe(&probeAfter)
 	}
 	s := zsim.Run(zsim.Config{MaxSteps: 300000, Trace: trace}, ch, main)
